@@ -50,15 +50,17 @@ def showTU (rc : List (Nat × Nat × Nat) × List (Nat × Nat)) : String :=
   joinS (rc.1.map (fun r => joinS ["R", toString r.1, toString r.2.1, toString r.2.2]) ++
          rc.2.map (fun c => joinS ["C", toString c.1, toString c.2]))
 
-partial def parseG : List String → Option (List G)
+/-- six tokens per glyph: xadv yadv xoff yoff vertical observable; `observable` = the glyph has an outline,
+so its position can be read off the real path (whitespace glyphs move the pen but leave no mark) -/
+partial def parseG : List String → Option (List (G × Bool))
   | [] => some []
-  | a :: b :: c :: d :: v :: rest => do
+  | a :: b :: c :: d :: v :: o :: rest => do
     let a ← a.toInt?
     let b ← b.toInt?
     let c ← c.toInt?
     let d ← d.toInt?
     let tl ← parseG rest
-    pure (⟨a, b, c, d, v == "1"⟩ :: tl)
+    pure ((⟨a, b, c, d, v == "1"⟩, o == "1") :: tl)
   | _ => none
 
 def handle : List String → Option String
@@ -103,9 +105,11 @@ def handle : List String → Option String
   | "PEN" :: x :: y :: ts => do
     let x ← x.toInt?
     let y ← y.toInt?
-    let gs ← parseG ts
+    let gos ← parseG ts
+    let gs := gos.map (·.1)
     let r := penRun x y gs
-    pure (joinS (r.1.map (fun p => toString p.1 ++ " " ++ toString p.2) ++ ["|", toString r.2, toString (textWidthUnits gs)]))
+    let seen := (r.1.zip (gos.map (·.2))).filter (·.2)
+    pure (joinS (seen.map (fun p => toString p.1.1 ++ " " ++ toString p.1.2) ++ ["|", toString r.2, toString (textWidthUnits gs)]))
   | _ => none
 
 end DrvC18
